@@ -135,13 +135,16 @@ class Family:
                     # remembered per distinct result must not let the bool through
                     if slot not in ("tag_value", "field_value"):
                         return "skip", None
-                    db.insert(tf.Point(time=T, measurement="m", tags={"k": "x", "n": "1"}, fields={"k": 1, "n": 1}))
-                    db.insert(tf.Point(time=T, measurement="m", tags={"k": "x", "n": "2"}, fields={"k": 1, "n": 2}))
+                    # (the two points carry the same sets; the callable tells them apart by counting its calls)
+                    db.insert(tf.Point(time=T, measurement="m", tags={"k": "x"}, fields={"k": 1}))
+                    db.insert(tf.Point(time=T, measurement="m", tags={"k": "x"}, fields={"k": 1}))
+                    calls = []
                     if slot == "tag_value":
-                        db.update_all(tags=lambda old, val=v: {"k": ("s" if old["n"] == "1" else val)})
+                        db.update_all(tags=lambda old, val=v: (calls.append(1), {"k": ("s" if len(calls) == 1 else val)})[1])
                     else:
                         good = (1 if v is True else 0 if v is False else 5)
-                        db.update_all(fields=lambda old, val=v, good=good: {"k": (good if old["n"] == 1 else val), "level": 1})
+                        db.update_all(fields=lambda old, val=v, good=good: (
+                            calls.append(1), {"k": (good if len(calls) == 1 else val), "level": 1})[1])
                 elif entry == "update_static_pairs":
                     # a static argument must be a mapping: an iterable of pairs is not one (and is not validated
                     # like one), whatever it carries
